@@ -289,6 +289,19 @@ func runOps(f *ach.File, ops []string) {
 			}
 		case "Reversal":
 			_ = cur.Reversal(fixedTime)
+		case "WithOffset":
+			off := &ach.Offset{RoutingNumber: "121042882", AccountNumber: "123456789", AccountType: ach.OffsetChecking, Description: "OFFSET"}
+			switch arg {
+			case "s":
+				off.AccountType = ach.OffsetSavings
+			case "bad":
+				off.RoutingNumber, off.Description = "1", "01"
+			}
+			for _, b := range cur.Batches {
+				if b != nil {
+					b.WithOffset(off)
+				}
+			}
 		case "BatchCreate":
 			for _, b := range cur.Batches {
 				if b != nil {
